@@ -72,7 +72,7 @@ impl Aligned {
 // ------------------------------------------------------------------ part A --
 
 fn part_a(ctx: &Ctx, rep: &mut Report) {
-    let maxlen = ctx.pick(6u32, 8u32);
+    let maxlen = ctx.pick(6u32, 9u32);
     let n = count_strings(8, maxlen);
     let mut r = par_range_in(ctx, "roundtrip/W8-vectors", n, 8192, |i, rep| {
         let mut idx = vec![];
